@@ -195,6 +195,27 @@ func (c *fnCtx) objFieldStore(st *ast.AssignStmt, l, r ast.Expr, k func() term) 
 		pre = append(pre, fnBind{pat: fv.name, e: x.name, isLet: true, effect: true})
 		return wrap(pre, k()), true
 	}
+	if outer, isCall := r.(*ast.CallExpr); isCall {
+		// r.f = r.g.M1(a...).M2(b...): M1 hands back a new object of f's kind, M2 is a method of that
+		// object that hands its receiver back
+		if osel, ok := outer.Fun.(*ast.SelectorExpr); ok {
+			if inner, ok := osel.X.(*ast.CallExpr); ok {
+				if fv2, m1 := c.objCallOf(inner); fv2 != nil {
+					ft1 := c.objMethodType(fv2, m1, inner)
+					if len(ft1.res) != 1 || ft1.res[0] != fv.typ {
+						c.lostAt(st, "value %s stored into the object field %s", src(r), f)
+					}
+					c.objMethodType(fv, osel.Sel.Name, outer)
+					if !c.objOf(fv).selfRes[osel.Sel.Name] {
+						c.lostAt(st, "method %s of the object stored into %s (must hand its receiver back)", osel.Sel.Name, f)
+					}
+					c.objCall(fv2, m1, inner, &pre, []string{fv.name})
+					c.objCall(fv, osel.Sel.Name, outer, &pre, nil)
+					return wrap(pre, k()), true
+				}
+			}
+		}
+	}
 	if call, isCall := r.(*ast.CallExpr); isCall {
 		if fv2, m := c.objCallOf(call); fv2 != nil {
 			ft := c.objMethodType(fv2, m, call)
